@@ -20,6 +20,14 @@ def gen(path, thorough=False):
                 continue
             rows.append('%s %s %d %d %d %d %s' % (pw.hex() or '-', salt.hex() or '-', N, r, p, dk, out.hex()))
             k += 1
+    # the corners of the asserted domain: largest N with the smallest r, largest r with a small N
+    for (N, r, p_, dk) in [(32768, 1, 1, 32), (32768, 1, 2, 7), (16384, 1, 1, 64), (2, 16, 8, 200), (32768, 2, 1, 32)]:
+        try:
+            pw = b'corner'; salt = b'NaCl'
+            out = hashlib.scrypt(pw, salt=salt, n=N, r=r, p=p_, dklen=dk, maxmem=256 * 1024 * 1024)
+            rows.append('%s %s %d %d %d %d %s' % (pw.hex(), salt.hex(), N, r, p_, dk, out.hex()))
+        except Exception:
+            pass
     open(path, 'w').write('\n'.join(rows) + '\n')
     return len(rows)
 
